@@ -213,13 +213,10 @@ impl Freelist {
         };
 
         if count == 0 {
-            if next_trunk == 0 {
-                self.head_page = 0;
-                self.free_count = 0;
-                return Ok(None);
-            }
+            let trunk_page = self.head_page;
             self.head_page = next_trunk;
-            return self.allocate(storage);
+            self.free_count -= 1;
+            return Ok(Some(trunk_page));
         }
 
         let entry_index = (count - 1) as usize;
@@ -244,10 +241,6 @@ impl Freelist {
         let trunk = TrunkHeader::from_bytes_mut(&mut page_data[trunk_offset..])?;
         trunk.set_count(count - 1);
         self.free_count -= 1;
-
-        if count - 1 == 0 {
-            self.head_page = next_trunk;
-        }
 
         Ok(Some(page_no))
     }
